@@ -102,6 +102,18 @@ func init() {
 		if !redis.New(m.Addr()).Ping() {
 			panic("c06: miniredis not reachable")
 		}
+		if i == 0 {
+			// cluster-type client (slot table loaded, node client and its
+			// reaper created) for the first server, also outside any bubble
+			cr := redis.New(m.Addr(), redis.WithCluster())
+			if !cr.Ping() {
+				panic("c06: miniredis not reachable through the cluster client")
+			}
+			_, _ = cr.Get("c06-warmup")
+			_, _ = cr.Del("c06-warmup")
+			_ = cr.SetEx("c06-warmup", "x", 1)
+			_, _ = cr.Del("c06-warmup")
+		}
 	}
 }
 
